@@ -6,6 +6,7 @@ package c03
 
 import (
 	"strconv"
+	"strings"
 	"context"
 	"fmt"
 	"sort"
@@ -332,6 +333,10 @@ var key = vh.Key{NS: "n1", Typ: vh.IntType, ID: "r"}
 func tokMutator(tok string) func(resource.Resource) error {
 	return func(r resource.Resource) error {
 		r.Metadata().Labels().Set(tok, "1")
+
+		if strings.HasPrefix(tok, "i") { // idempotent mutator ("set X"): applying it again changes nothing
+			return nil
+		}
 
 		// not idempotent on purpose: a mutation applied twice to the same object shows in the count
 		n := 0
